@@ -36,8 +36,11 @@ def run(tier, wd):
                     default = V.DEFAULTS[typ][0]
                     # command line, single token; command line, bad token not in last position; environment
                     routes = [("cli", [tok]), ("cli", [tok, good]), ("cli", [good, tok]), ("env", [tok])]
+                    if role == "arg":
+                        # ... and behind an option written in the spec that its environment variable satisfies without a token
+                        routes.append(("clix", [tok, good]))
                     for route, seq in routes:
-                        if route == "cli":
+                        if route in ("cli", "clix"):
                             if role == "opt" and any(t == "" for t in seq):
                                 continue   # an empty value cannot be written as -o= (it is not an occurrence, C01)
                             if role == "opt":
@@ -47,6 +50,9 @@ def run(tier, wd):
                                 argv = ["--"] + list(seq)   # behind the marker every token is a positional, verbatim (C09)
                                 spec = "[A...]"
                             case = {"type": typ, "role": role, "ptr": rnd.random() < 0.5, "default": default, "envs": [], "cli": list(seq), "argv": argv, "spec": spec}
+                            if route == "clix":
+                                case.update(extraflag=True, extraenv=True, spec="[-x] " + spec)
+                                route = "cli"
                         else:
                             if multi:
                                 if "," in tok:
@@ -130,6 +136,8 @@ def run(tier, wd):
         nontriv.add((c["type"], c["role"], route, toks))
         if len(rep.cov["samples"]) < 6 and rnd.random() < 0.003:
             rep.cov["samples"].append({"case": vc.describe(c), "strconv": r["canon"], "specification": {"usage_error": pc["usage"], "value": want}, "library": {"ran": r["ran"], "value": r["value"]}})
+    from props import valcommon
+    valcommon.pair_part(rep, wd, binpath, rnd, "c13-pair", 1 if q else 6)
     rep.cov["traces_validated_against_impl"] = len(cases)
     rep.cov["distinct_nontrivial"] = len(nontriv)
     rep.cov["cases_with_a_rejected_token"] = rejected
@@ -144,6 +152,8 @@ def run(tier, wd):
 
 def replay(path, wd):
     def judge(o, r):
+        if "expected2" in o:
+            return vc.pair_replay_bad(o, r)
         if o.get("kind") == "dead":
             return bool(r.get("hang") or r.get("crash"))
         if o["usage"]:
